@@ -24,7 +24,7 @@ func init() {
 			c18Specs = append(c18Specs, c18Spec{pairs[i], kind, pairs[i+1], positional})
 		}
 	}
-	for _, k := range []string{"unequal-length-shorter", "unequal-length-longer"} {
+	for _, k := range []string{"unequal-length-shorter", "unequal-length-longer", "unequal-length-empty"} {
 		add(k, true, "variants", "msa", "variants-stdin", "msa", "snps", "query", "closest", "query", "closest", "target", "closestn", "query", "closestn", "target", "list", "query", "toprank", "query", "toprank", "target")
 	}
 	add("non-iupac", true, "variants", "msa", "variants-stdin", "msa", "snps", "query", "closest", "query", "closest", "target", "closestn", "target", "list", "query", "toprank", "query", "toprank", "target")
@@ -205,13 +205,18 @@ func runC18(c *fw.Ctx, idx int) fw.Result {
 		if sp.file == "msa" && pos == 0 && strings.HasPrefix(sp.kind, "unequal-length") {
 			i = 1 // the first *query* row (row 0 is the reference and defines the width)
 		}
+		if sp.kind == "unequal-length-empty" && i == len(recs)-1 && i > 0 {
+			i-- // a header-only *last* record is an unspecified zone (DESIGN C16); first and middle are not
+		}
 		f(&recs[i])
 		files[sp.file] = gen.RenderFasta(recs, []int{0, 60}[idx%2])
 	}
 	switch sp.kind {
-	case "unequal-length-shorter", "unequal-length-longer":
+	case "unequal-length-shorter", "unequal-length-longer", "unequal-length-empty":
 		mutRec(func(rc *gen.FastaRec) {
-			if sp.kind == "unequal-length-shorter" && len(rc.Seq) > 1 {
+			if sp.kind == "unequal-length-empty" && len(recsOf[sp.file]) > 1 {
+				rc.Seq = "" // the row has lost its whole sequence: a header directly followed by the next header
+			} else if sp.kind == "unequal-length-shorter" && len(rc.Seq) > 1 {
 				rc.Seq = rc.Seq[:len(rc.Seq)-1]
 			} else {
 				rc.Seq += "A"
